@@ -114,7 +114,7 @@ fn observe_set(store: &AnnotationStore, h: usize, probes: &[Sx], values: &[Sx]) 
                         }
                     }
                 };
-                let (via_store, via_filter, tested_store) = match key_item {
+                let (via_store, via_filter, tested_store) = match &key_item {
                     None => (found.clone(), found.clone(), tested),
                     Some(key) => {
                         let enc = |d: ResultItem<AnnotationData>| if d.set().handle() == set.handle() { d.handle().as_usize() } else { 10000 + d.handle().as_usize() };
@@ -128,7 +128,28 @@ fn observe_set(store: &AnnotationStore, h: usize, probes: &[Sx], values: &[Sx]) 
                         (v1, v2, t)
                     }
                 };
-                l(vec![nats(found), b(tested), nats(via_store), nats(via_filter), b(tested_store)])
+                // the per-item test of the API (ResultItem<AnnotationData>::test, which names the key
+                // through ResultItem<DataKey>::test) over a scan of the set's data: key given as "any",
+                // by public id, by handle and as the key item itself; only for keys that exist
+                let via_test: Vec<usize> = {
+                    let op3 = dop(p.nth(1));
+                    let scan = |f: &dyn Fn(&ResultItem<AnnotationData>) -> bool| -> Vec<usize> { set.data().filter(|d| f(d)).map(|d| d.handle().as_usize()).collect() };
+                    match (p.nth(0), &key_item) {
+                        (Sx::A(_), _) => scan(&|d| d.test(false, &op3)),
+                        (k, Some(key)) => {
+                            let by_req = if k.nth(0).int() == 0 {
+                                let id = kid(k.nth(1).int());
+                                scan(&|d| d.test(id.as_str(), &op3))
+                            } else {
+                                scan(&|d| d.test(key.handle(), &op3))
+                            };
+                            let by_item = scan(&|d| d.test(key, &op3));
+                            if by_item == by_req { by_req } else { vec![99999] }
+                        }
+                        (_, None) => found.clone(),
+                    }
+                };
+                l(vec![nats(found), b(tested), nats(via_store), nats(via_filter), b(tested_store), nats(via_test)])
             })
             .collect();
         let byval = values
@@ -217,7 +238,24 @@ pub fn generate(out: &mut Out, tier: &str, seed: u64) {
     let n = if thorough { 250000 } else { 1500 };
     for i in 0..n {
         let cfg = GenCfg { max_ops: if i % 4 == 0 { 40 } else { 16 }, removals: 4, invalid: 25, values: true };
-        let ops = gen_history(&mut rng, &cfg);
+        let mut ops = gen_history(&mut rng, &cfg);
+        // a dataset built in one go from a builder that carries data items (with_dataset / add_dataset),
+        // some of them the same id-less key and value twice: inserted at a random place of the history
+        if rng.chance(1, 3) {
+            let nitems = 1 + rng.below(4);
+            let mut items: Vec<Sx> = Vec::new();
+            for _ in 0..nitems {
+                if !items.is_empty() && rng.chance(1, 3) {
+                    let again = items[rng.below(items.len())].clone();
+                    items.push(again);
+                } else {
+                    let id = if rng.chance(1, 4) { l(vec![a(0), a(rng.below(6) as i64)]) } else { a(-1) };
+                    items.push(l(vec![l(vec![a(0), a(0)]), id, l(vec![a(0), a(rng.below(3) as i64)]), gen_value(&mut rng, true, 0)]));
+                }
+            }
+            let at = rng.below(ops.len() + 1);
+            ops.insert(at, l(vec![a(13), a(rng.below(5) as i64), l(items)]));
+        }
         let mut probes = Vec::new();
         for _ in 0..24 {
             let key = match rng.below(5) {
@@ -236,5 +274,5 @@ pub fn generate(out: &mut Out, tier: &str, seed: u64) {
     }
 }
 
-pub const RULE: &str = "seeded random histories as in C01 with typed values (null, bool, int -3..3, float on a 0.5 grid plus the doubles next to 1.0 and -1.0 (which an epsilon comparison would confuse with them), strings incl. empty / non-BMP / numerals / 'true' / 'ON', nested lists), data with and without ids through datasets and through annotations, removals of data and keys (strict and not); after the history, per dataset: keys unique and id-less data never a second copy of an existing (key,value) (scan through the API), 24 probes (any key / key by id / key by handle, incl. unknown and removed keys) x random operator (all 21 variants incl. Not/And/Or nested to depth 2, Equals against bool/int/float/string, HasElement*) through find_data and test_data of the dataset and, for probes with a key, through AnnotationStore::find_data, AnnotationStore::test_data and store.data().filter_key_handle_value (which walk the data of all sets), and data_by_value for 3 keys x 6 values; then AnnotationStore::shrink_to_fit(true) and all of it again; a third of the histories run on a store configured with generate_ids. One evaluation = one dataset record.";
+pub const RULE: &str = "seeded random histories as in C01 with typed values (null, bool, int -3..3, float on a 0.5 grid plus the doubles next to 1.0 and -1.0 (which an epsilon comparison would confuse with them), strings incl. empty / non-BMP / numerals / 'true' / 'ON', nested lists), data with and without ids through datasets and through annotations, a third of the histories with a dataset built in one go from a builder carrying 1..4 data items (the same id-less key and value twice among them), removals of data and keys (strict and not); after the history, per dataset: keys unique and id-less data never a second copy of an existing (key,value) (scan through the API), 24 probes (any key / key by id / key by handle, incl. unknown and removed keys) x random operator (all 21 variants incl. Not/And/Or nested to depth 2, Equals against bool/int/float/string, HasElement*) through find_data and test_data of the dataset and, for probes with a key, through AnnotationStore::find_data, AnnotationStore::test_data, store.data().filter_key_handle_value and a scan with the per-item ResultItem<AnnotationData>::test (key as any / id / handle / item) (which walk the data of all sets), and data_by_value for 3 keys x 6 values; then AnnotationStore::shrink_to_fit(true) and all of it again; a third of the histories run on a store configured with generate_ids. One evaluation = one dataset record.";
 pub const EXHAUSTIVE: bool = false;
